@@ -34,6 +34,7 @@ export async function evalSemantic(spec, rec, optionsJson, { slotCalls = 2, runR
   const { rt, ns, error, cleanup } = loaded;
   try {
     if (error) return { error };
+    const initTrace = probeTrace(rt.log);
     const out = [];
     for (const th of spec.thunks) {
       const ctx = { rt, slotCalls };
@@ -65,7 +66,7 @@ export async function evalSemantic(spec, rec, optionsJson, { slotCalls = 2, runR
       }
       out.push(one);
     }
-    const res = { thunks: out, rt, ns };
+    const res = { thunks: out, rt, ns, initTrace };
     if (live) res.live = await live(res);
     return res;
   } finally {
